@@ -2106,6 +2106,9 @@ class Evaluator:
                 args.append(self.expr(a))
                 if self.st is None:
                     return NEVER
+            if d == "std::convert::From::from" and len(args) == 1 and isinstance(n.get("inst"), str) and self.local_callee(n.get("inst")) is not None:
+                # `T::from(x)` with a local `impl From<X> for T`: that impl, not a change of representation
+                return self.do_call(n, n.get("inst"), n.get("inst"), args, argnodes, "call")
             if d in IDENTITY_FNS and len(args) == 1:
                 self._site(node=n, kind="call", callee=d, inst=n.get("inst"), args=list(args), argnodes=argnodes, ty=n.get("ty"))
                 return args[0]
